@@ -478,13 +478,15 @@ def check_search(m, f, schema, res_wl, res_bound):
         else:
             fail(res_wl, 'pred-update', ins['i'], why)
     else:
-        pupd = [(an, idx, rhs) for (an, ad, idx, rhs) in s.assigns if ad == pred_arr and an in s.scanbody]
+        pupd = [(an, idx, rhs) for (an, ad, idx, rhs) in s.assigns if ad == pred_arr and an in s.body]
         if any(idx == v and rhs == u and f.region(an) <= ins_region for an, idx, rhs in pupd) and \
-                all(idx == v and rhs == u for an, idx, rhs in pupd):
+                all(idx == v and rhs == u and f.region(an) <= ins_region for an, idx, rhs in pupd):
             res_wl.ok(dict(function=disp, schema=schema, check='pred-update', form='pred[v] = u in the insertion region'), fn=disp)
         else:
-            fail(res_wl, 'pred-update', ins['i'], 'pred[neighbour] = current is not set in the insertion region (or another '
-                                                  'predecessor write exists)')
+            fail(res_wl, 'pred-update', ins['i'], 'pred[neighbour] = current is not set in the insertion region, or a predecessor is '
+                                                  'also written outside the region of the (strict) improvement: ties or other '
+                                                  'conditions then rewrite the tree, and dist[v] = dist[pred[v]] + w(pred[v],v) / '
+                                                  '"the source is its own predecessor" no longer follow')
     # ---- initialisation of the source
     res_wl.sites += 1
     src = None
@@ -832,10 +834,147 @@ def rule_wrappers(m):
                   f.unit.decl(n['callee'])['name'] == 'push_front']
             if not any(tt.t(n['args'][0]) == cur for n in pf) or not any(tt.t(n['args'][0]) == src for n in pf):
                 why = why or 'the path is not built by prepending the visited vertices and finally the source'
+        if why is None:
+            for t in throws:
+                okt2 = False
+                for dep in f.region(t['i']):
+                    a = f.branch_atom(dep[0])
+                    tm = tt.t(a) if a is not None else None
+                    if tm and tm[0] == 'bin' and tm[1] == '==' and strip_cast(tm[2]) == cur and _sentinel(tm[3]) and dep[1] == 0:
+                        okt2 = True
+                    if tm and tm[0] == 'bin' and tm[1] in ('>=', '>') and is_size_term(m, f, strip_cast(tm[3]), tt) and \
+                            strip_cast(tm[2])[0] == 'var' and f.unit.decl(strip_cast(tm[2])[1])['dk'] == 'ParmVar':
+                        okt2 = True     # range validation of an argument
+                if not okt2:
+                    # a bound on the length of the partial path: a shortest path has at most V vertices and the partial
+                    # path (without the source, which is prepended after the loop) at most V - 1
+                    for dep in f.region(t['i']):
+                        a = f.branch_atom(dep[0])
+                        tm = tt.t(a) if a is not None else None
+                        if tm and tm[0] == 'bin' and tm[1] in ('>=', '>') and dep[1] == 0:
+                            l, r = strip_cast(tm[2]), strip_cast(tm[3])
+                            if l[0] == 'mcall' and l[1].endswith('::size') and l[2][0] == 'var':
+                                c = None
+                                if is_size_term(m, f, r, tt):
+                                    c = 0
+                                elif r[0] == 'bin' and r[1] == '-' and is_size_term(m, f, strip_cast(r[2]), tt) and strip_cast(r[3])[0] == 'int':
+                                    c = strip_cast(r[3])[1]
+                                elif r[0] == 'bin' and r[1] == '+' and is_size_term(m, f, strip_cast(r[2]), tt) and strip_cast(r[3])[0] == 'int':
+                                    c = -strip_cast(r[3])[1]
+                                if c is not None:
+                                    threshold_minus_v = -c + (1 if tm[1] == '>' else 0)    # throw fires when size >= V + this
+                                    if threshold_minus_v >= 0:
+                                        okt2 = True
+                                    else:
+                                        why = 'the walk is aborted when the partial path reaches %d fewer than V vertices (`%s`): a ' \
+                                              'geodesic that visits every vertex (hop distance V-1) is rejected with an exception' % (
+                                                  -threshold_minus_v, f.expr_text(a)[:70])
+                                        okt2 = True
+                if not okt2:
+                    res.broken('F-WRAP: %s rejects inputs under the additional condition at %s; the rule cannot show that it never '
+                               'fires on the output of the matching search' % (f.display(), f.nloc(t['i'])))
         if why:
             res.fail(Finding('F-WRAP', f.display(), 'reconstruction walk', f.where(), why))
         else:
             res.ok(dict(function=f.display(), walk='current = pred[current] from destination until source; throws on sentinel')
                    if len(res.samples) < 8 else None, fn=f.display())
     res.require_sites(20, 'wrappers / reconstruction functions')
+    return res
+
+
+def rule_enumpaths(m):
+    """S-ENUMPATHS: stack enumeration of all parent chains (findMultiplePathsToVertexFromPredecessors)."""
+    res = RuleResult('F-ENUMPATHS', 'the enumeration of all shortest paths keeps two stacks in lockstep (vertex, partial path), '
+                                    'seeds them with every predecessor of the destination, extends the popped partial path with the '
+                                    'popped vertex before pushing each of its predecessors with a copy of it, records a path exactly '
+                                    'when the popped vertex is the source (with the destination appended) and throws on a dead end')
+    for f in m.by_tname.get(ALG + 'findMultiplePathsToVertexFromPredecessors', []):
+        if len(f.params) != 4:
+            continue
+        res.sites += 1
+        tt = Terms(f)
+        u = f.unit
+        src, dest, preds = ('var', f.params[1]), ('var', f.params[2]), ('var', f.params[3])
+        stacks = [d for n in f.nodes if n['k'] == 'DeclStmt' for d in n['decls'] if u.decl(d).get('ctype', '').startswith('std::stack<')]
+        why = None
+        if len(stacks) != 2:
+            why = 'expected a vertex stack and a path stack'
+        else:
+            vs = [d for d in stacks if 'std::stack<unsigned int' in u.decl(d)['ctype']]
+            ps = [d for d in stacks if d not in vs]
+            if len(vs) != 1 or len(ps) != 1:
+                why = 'expected a stack of vertices and a stack of paths'
+            else:
+                VS, PS = ('var', vs[0]), ('var', ps[0])
+
+                def calls(obj, name):
+                    return [n for n in f.nodes if n['k'] == 'CXXMemberCallExpr' and 'callee' in n and
+                            u.decl(n['callee'])['name'] == name and tt.t(n['obj']) == obj]
+                pv, pp = calls(VS, 'push'), calls(PS, 'push')
+                ov, op = calls(VS, 'pop'), calls(PS, 'pop')
+                tv, tp = calls(VS, 'top'), calls(PS, 'top')
+                # lockstep: same number of pushes, each pair in the same region
+                if len(pv) != len(pp) or len(pv) != 2 or len(ov) != 1 or len(op) != 1 or len(tv) != 1 or len(tp) != 1:
+                    why = 'the two stacks are not pushed / popped in lockstep (pushes %d/%d, pops %d/%d)' % (len(pv), len(pp), len(ov), len(op))
+                else:
+                    for a, b in zip(sorted(pv, key=lambda n: n['i']), sorted(pp, key=lambda n: n['i'])):
+                        if f.region(a['i']) != f.region(b['i']):
+                            why = 'a vertex is pushed without its partial path (or vice versa)'
+                    if f.region(ov[0]['i']) != f.region(op[0]['i']):
+                        why = why or 'the two stacks are not popped together'
+                    # current vertex / current path variables
+                    cur = cl = None
+                    for n in f.nodes:
+                        if n['k'] in ('BinaryOperator', 'CXXOperatorCallExpr'):
+                            t = tt.t(n['i'])
+                            if t[0] == 'bin' and t[1] == '=' and t[2][0] == 'var':
+                                if t[3] == ('mcall', 'std::stack::top', VS, ()):
+                                    cur = t[2]
+                                if t[3] == ('mcall', 'std::stack::top', PS, ()):
+                                    cl = t[2]
+                    if cur is None or cl is None:
+                        why = why or 'the popped vertex / path are not taken from the tops of the two stacks'
+                    else:
+                        loops = [n for n in f.nodes if n['k'] == 'CXXForRangeStmt']
+                        seeds = [n for n in loops if strip_cast(tt.t(n['rangeinit'])) == ('idx', ('member', preds, 'std::pair::second'), dest)]
+                        kids = [n for n in loops if strip_cast(tt.t(n['rangeinit'])) == ('idx', ('member', preds, 'std::pair::second'), cur)]
+                        if len(seeds) != 1 or len(kids) != 1:
+                            why = why or 'the stacks are not seeded with the predecessors of the destination / refilled with the ' \
+                                         'predecessors of the popped vertex'
+                        else:
+                            for lp in (seeds[0], kids[0]):
+                                lv = ('var', lp['loopvar'])
+                                body = set(f.descendants(lp['body']))
+                                if not any(n['i'] in body and tt.t(n['args'][0]) == lv for n in pv) or \
+                                        not any(n['i'] in body and tt.t(n['args'][0]) == cl for n in pp):
+                                    why = why or 'inside a predecessor loop the predecessor and the current partial path are not pushed'
+                            pf = [n for n in f.nodes if n['k'] == 'CXXMemberCallExpr' and 'callee' in n and
+                                  u.decl(n['callee'])['name'] == 'push_front' and tt.t(n['obj']) == cl and tt.t(n['args'][0]) == cur]
+                            if len(pf) != 1 or not f.can_reach_forward(pf[0]['i'], kids[0]['rangeinit']):
+                                why = why or 'the popped vertex is not prepended to the partial path before its predecessors are pushed'
+                            # record when cur == source
+                            rec = [n for n in f.nodes if n['k'] == 'CXXMemberCallExpr' and 'callee' in n and
+                                   u.decl(n['callee'])['name'] == 'push_back' and tt.t(n['args'][0]) == cl]
+                            okr = False
+                            for n in rec:
+                                for dep in f.region(n['i']):
+                                    t = tt.t(f.branch_atom(dep[0]))
+                                    if t[0] == 'bin' and t[1] == '==' and {t[2], t[3]} == {cur, src} and dep[1] == 0:
+                                        pb = [x for x in f.nodes if x['k'] == 'CXXMemberCallExpr' and 'callee' in x and
+                                              u.decl(x['callee'])['name'] == 'push_back' and tt.t(x['obj']) == cl and
+                                              tt.t(x['args'][0]) == dest and f.region(x['i']) == f.region(n['i']) and
+                                              f.can_reach_forward(x['i'], n['i'])]
+                                        if pb:
+                                            okr = True
+                            if not okr:
+                                why = why or 'a path is not recorded exactly when the popped vertex is the source, with the destination appended'
+                            throws = [n for n in f.nodes if n['k'] == 'CXXThrowExpr']
+                            if not throws:
+                                why = why or 'a vertex without predecessors that is not the source is not rejected'
+        if why:
+            res.fail(Finding('F-ENUMPATHS', f.display(), 'path enumeration schema', f.where(), why))
+        else:
+            res.ok(dict(function=f.display(), schema='two stacks in lockstep; seed preds(dest); pop; prepend; push preds(cur); record at source')
+                   if len(res.samples) < 4 else None, fn=f.display())
+    res.require_sites(10, 'enumeration functions')
     return res
